@@ -349,7 +349,7 @@ def stack_specs():
     E = "HashMap::entry(SELF.data,IDX)"
     O = "Entry::or_insert(%s,VEC)" % E
     PO = "Vec::pop(%s)" % O
-    GM = "HashMap::get_mut(SELF.data,PROMOTED)"
+    GM = "HashMap::get_mut(SELF.data,K0)"
     U = "UNWRAP(%s)" % GM
     PU = "Vec::pop(%s)" % U
     specs["v0::Stack::pop"] = Alt(
